@@ -823,6 +823,35 @@ def gen_algo_case(seed, idx, algo=None, force=None, monitors_on=True, T=None, ho
         # the domain as users (and the library's own tests) write it: integer bounds
         user_box = [[int(iv[0]), int(iv[1])] for iv in box]
         case.tags["domain=integer-bounds"] += 1
+    # how the caller writes things (all accepted by the library): rows as tuples, NumPy scalars, a NumPy array; rewards as
+    # ints / bools / NumPy scalars when the value allows; the time label as a NumPy integer.  Values are unchanged.
+    wrnd = random.Random(f"written-{seed}-{idx}-{ad.name}")
+    wstyle = wrnd.choice(["plain", "plain", "plain", "tuples", "npscalars", "nparray", "aliased"])
+    if wstyle == "aliased":
+        if len(user_box) > 1 and all(r == user_box[0] for r in user_box):
+            user_box = [user_box[0]] * len(user_box)          # the cube written as [[lo, hi]] * d: one row object
+            case.tags["written=aliased-rows"] += 1
+        wstyle = "plain"
+    if wstyle == "tuples":
+        user_box = [tuple(iv) for iv in user_box]
+    elif wstyle == "npscalars":
+        user_box = [[np.float64(iv[0]), np.float64(iv[1])] for iv in user_box]
+    elif wstyle == "nparray":
+        user_box = np.array([[float(iv[0]), float(iv[1])] for iv in user_box])
+    if wstyle != "plain":
+        case.tags[f"written={wstyle}"] += 1
+
+    def as_written(r_):
+        if wstyle == "plain":
+            return r_
+        k_ = wrnd.random()
+        if r_ == 0 and math.copysign(1.0, r_) < 0:
+            return r_                    # -0.0 has no integer / bool spelling
+        if r_ in (0.0, 1.0) and k_ < 0.3:
+            return bool(r_)
+        if float(r_).is_integer() and abs(r_) < 2 ** 50 and k_ < 0.6:
+            return int(r_)
+        return np.float64(r_) if k_ < 0.8 else r_
     with RngCtl(drnd, qmode=qmode) as rng:
         ctx["rng"] = rng
         pcls = make_partition_class(kind, K, rng)
@@ -875,7 +904,7 @@ def gen_algo_case(seed, idx, algo=None, force=None, monitors_on=True, T=None, ho
             if "before_pull" in hooks:
                 hooks["before_pull"](ctx, i)
             try:
-                pt = guarded(a.pull, t)
+                pt = guarded(a.pull, (np.int64(t) if wstyle == "npscalars" else t))
             except Exception as e:
                 case.op(ad.pull_line(t, glog[mark:], rng.log[rmark:], None, ctx), "ERR " + exc_name(e))
                 case.fail("C01", "pull-exception", f"{type(e).__name__}: {e}", step=i, algo=ad.name, exc=type(e).__name__)
@@ -920,7 +949,7 @@ def gen_algo_case(seed, idx, algo=None, force=None, monitors_on=True, T=None, ho
             ctx["rewards"].append(r)
             mark = len(glog)
             try:
-                guarded(a.receive_reward, t, r)
+                guarded(a.receive_reward, (np.int64(t) if wstyle == "npscalars" else t), as_written(r))
             except Exception as e:
                 case.op(f"A.recv {fbits(r)} {draws_str(glog[mark:])}", "ERR " + exc_name(e))
                 case.fail("C01", "receive-exception", f"{type(e).__name__}: {e}", step=i, algo=ad.name, exc=type(e).__name__)
@@ -956,7 +985,7 @@ def gen_algo_case(seed, idx, algo=None, force=None, monitors_on=True, T=None, ho
                           no_candidate=ad.no_candidate(a))
             if "at_end" in hooks:
                 hooks["at_end"](ctx)
-        if user_box != box:
+        if [[float(x) for x in iv] for iv in user_box] != [[float(x) for x in iv] for iv in box]:
             case.fail("C14", "domain-mutated", "user domain object modified", algo=ad.name)
     meta["n_nodes"] = sum(len(p_._all) for p_ in parts())
     if not getattr(ad, "model", True):
